@@ -210,6 +210,9 @@ fn fc_check(case: &FcCase, col: &Collector) {
 struct LfuCase {
     counters: u64,
     stream: Vec<u64>,
+    /// the stream is handed to `increment_access` in buffers of this many accesses (the reference model
+    /// always works one access at a time: ageing happens after *exactly* `counters` recorded accesses)
+    chunk: usize,
 }
 
 fn lfu_cases(quick: bool) -> Vec<LfuCase> {
@@ -231,24 +234,30 @@ fn lfu_cases(quick: bool) -> Vec<LfuCase> {
     let cs: Vec<u64> = if quick { vec![1, 2, 3, 4, 7] } else { vec![1, 2, 3, 4, 5, 7, 8, 9] };
     for c in cs {
         for s in &frontier {
-            cases.push(LfuCase { counters: c, stream: s.clone() });
+            for chunk in [1usize, 2, 3, 7] {
+                cases.push(LfuCase { counters: c, stream: s.clone(), chunk });
+            }
         }
     }
     // long runs of one key through several windows and up to saturation
     for c in [4u64, 16, 64] {
-        cases.push(LfuCase { counters: c, stream: vec![1; 40] });
+        for chunk in [1usize, 5, 64] {
+            cases.push(LfuCase { counters: c, stream: vec![1; 40], chunk });
+        }
         let mut s = Vec::new();
         for i in 0..48 {
             s.push(if i % 3 == 0 { 6 } else { 1 });
         }
-        cases.push(LfuCase { counters: c, stream: s });
+        for chunk in [1usize, 4, 64] {
+            cases.push(LfuCase { counters: c, stream: s.clone(), chunk });
+        }
     }
     cases
 }
 
 fn lfu_check(case: &LfuCase, col: &Collector) {
     col.evaluated();
-    let input = json!({"counters": case.counters, "stream": case.stream});
+    let input = json!({"counters": case.counters, "stream": case.stream, "chunk": case.chunk});
     let seeds = [3u64, 5, 9, 12];
     let r = std::panic::catch_unwind(|| {
         let mut problems: Vec<(String, String, String)> = Vec::new();
@@ -264,35 +273,50 @@ fn lfu_check(case: &LfuCase, col: &Collector) {
             k.dedup();
             k
         };
-        for (i, h) in case.stream.iter().enumerate() {
-            let in_door = lfu.verif_door_keeper_has(*h);
-            lfu.increment_access(vec![*h]);
-            if in_door {
-                for r in 0..4 {
-                    let p = ((h ^ seeds[r]) % len) as usize;
-                    rows[r][p] = (rows[r][p] + 1).min(15);
+        // reference door-keeper: exact set, seeded with the real filter's answers at the start of each chunk
+        // (its false positives are inputs); inside a chunk the reference tracks what it adds itself
+        let mut pos = 0usize;
+        while pos < case.stream.len() {
+            let end = (pos + case.chunk.max(1)).min(case.stream.len());
+            let chunk: Vec<u64> = case.stream[pos..end].to_vec();
+            let mut door: std::collections::BTreeSet<u64> = keys.iter().copied().filter(|k| lfu.verif_door_keeper_has(*k)).collect();
+            lfu.increment_access(chunk.clone());
+            let mut aged_in_chunk = false;
+            for h in &chunk {
+                let in_door = door.contains(h);
+                if in_door {
+                    for r in 0..4 {
+                        let p = ((h ^ seeds[r]) % len) as usize;
+                        rows[r][p] = (rows[r][p] + 1).min(15);
+                    }
+                } else {
+                    door.insert(*h);
+                }
+                *window_counts.entry(*h).or_insert(0) += 1;
+                total += 1;
+                if total >= case.counters {
+                    total = 0;
+                    aged_in_chunk = true;
+                    for r in rows.iter_mut() {
+                        for c in r.iter_mut() {
+                            *c /= 2;
+                        }
+                    }
+                    window_counts.clear();
+                    door.clear();
                 }
             }
-            *window_counts.entry(*h).or_insert(0) += 1;
-            total += 1;
-            let aged = total >= case.counters;
-            if aged {
-                total = 0;
-                for r in rows.iter_mut() {
-                    for c in r.iter_mut() {
-                        *c /= 2;
-                    }
-                }
-                window_counts.clear();
-                // the first-access filter is cleared
-                for k in &keys {
-                    if lfu.verif_door_keeper_has(*k) {
-                        problems.push(("doorkeeper-not-cleared".into(), "lfu:doorkeeper-not-cleared-on-ageing".into(), format!("after access #{} (window of {}) the first-access filter still contains {}", i + 1, case.counters, k)));
-                    }
+            let i = end - 1;
+            let aged = aged_in_chunk;
+            // the first-access filter agrees with the reference at the end of the chunk (cleared by ageing)
+            for k in &keys {
+                let has = lfu.verif_door_keeper_has(*k);
+                if has && !door.contains(k) && aged {
+                    problems.push(("doorkeeper-not-cleared".into(), "lfu:doorkeeper-not-cleared-on-ageing".into(), format!("after access #{} (window of {}, buffers of {}) the first-access filter still contains {} although ageing should have cleared it", i + 1, case.counters, case.chunk, k)));
                 }
             }
             if lfu.verif_total_increments() != total {
-                problems.push(("window-counter".into(), "lfu:window-counter-wrong".into(), format!("after access #{} total_increments={} (expected {})", i + 1, lfu.verif_total_increments(), total)));
+                problems.push(("window-counter".into(), "lfu:window-counter-wrong".into(), format!("after access #{} (buffers of {}) total_increments={} (expected {})", i + 1, case.chunk, lfu.verif_total_increments(), total)));
             }
             // the packed rows equal the reference counters
             let real = lfu.verif_frequency_counter().verif_rows();
@@ -300,7 +324,7 @@ fn lfu_check(case: &LfuCase, col: &Collector) {
                 for p in 0..len as usize {
                     let got = (real[r][p / 2] >> ((p & 1) * 4)) & 0x0f;
                     if got as u64 != rows[r][p] {
-                        problems.push(("counter-differs-from-reference".into(), if aged { "lfu:ageing-does-not-halve".into() } else { "lfu:counter-differs-from-reference".into() }, format!("after access #{} row {} position {} holds {} (reference {})", i + 1, r, p, got, rows[r][p])));
+                        problems.push(("counter-differs-from-reference".into(), if aged { "lfu:ageing-differs-from-reference".into() } else { "lfu:counter-differs-from-reference".into() }, format!("after access #{} (window {}, buffers of {}) row {} position {} holds {} (reference {})", i + 1, case.counters, case.chunk, r, p, got, rows[r][p])));
                     }
                 }
             }
@@ -312,6 +336,7 @@ fn lfu_check(case: &LfuCase, col: &Collector) {
                     problems.push(("under-count".into(), "lfu:estimate-under-counts-in-window".into(), format!("after access #{} estimate({})={} but it was accessed {} times in this window", i + 1, k, est, n)));
                 }
             }
+            pos = end;
         }
         problems
     });
@@ -327,7 +352,7 @@ fn lfu_check(case: &LfuCase, col: &Collector) {
             col.violation(violation("panic", &format!("panic:sketch:counters={}", case.counters), format!("TinyLFU with counters={} panicked: {}", case.counters, m), input.clone()));
         }
     }
-    col.nontrivial(&format!("{:?}", (case.counters, &case.stream)));
+    col.nontrivial(&format!("{:?}", (case.counters, &case.stream, case.chunk)));
     if case.stream.len() > 20 {
         col.sample(input, 2);
     }
@@ -387,7 +412,7 @@ pub fn def(ctx: &Ctx) -> PropertyDef {
         }),
         replay: no_replay(|input| {
             let col = Collector::new();
-            let case = LfuCase { counters: input["counters"].as_u64().unwrap_or(1), stream: input["stream"].as_array().map(|a| a.iter().filter_map(|x| x.as_u64()).collect()).unwrap_or_default() };
+            let case = LfuCase { counters: input["counters"].as_u64().unwrap_or(1), stream: input["stream"].as_array().map(|a| a.iter().filter_map(|x| x.as_u64()).collect()).unwrap_or_default(), chunk: input["chunk"].as_u64().unwrap_or(1) as usize };
             lfu_check(&case, &col);
             found(&col)
         }),
